@@ -185,7 +185,7 @@ func runConcurrent(m *mon.M, c *Case, x *exec, rt *client.Runtime) {
 					one := *call
 					one.Rounds = 0
 					m.Violate(f.sig, fmt.Sprintf("(first seen in a concurrent run, N=%d; reproduced by this call alone) %s", n, f.text),
-						&Case{Registry: c.Registry, DefaultMT: c.DefaultMT, RtCtx: c.RtCtx, TCP: c.TCP, Calls: []Call{one}})
+						&Case{Registry: c.Registry, DefaultMT: c.DefaultMT, RtCtx: c.RtCtx, TCP: c.TCP, Debug: c.Debug, TokenBody: c.TokenBody, Calls: []Call{one}})
 					continue
 				}
 				m.Violate(f.sig, fmt.Sprintf("concurrent run (N=%d, GOMAXPROCS=%d), goroutine %d round %d: %s", n, procs, i, k, f.text), c)
@@ -219,7 +219,7 @@ func hasSig(fs []finding, sig string) bool {
 func runAlone(c *Case, call *Call) []finding {
 	one := *call
 	one.Rounds = 0
-	min := &Case{Registry: c.Registry, DefaultMT: c.DefaultMT, RtCtx: c.RtCtx, TCP: c.TCP, Calls: []Call{one}}
+	min := &Case{Registry: c.Registry, DefaultMT: c.DefaultMT, RtCtx: c.RtCtx, TCP: c.TCP, Debug: c.Debug, TokenBody: c.TokenBody, Calls: []Call{one}}
 	x := prepare(min)
 	defer x.release()
 	rt := x.newRuntime()
